@@ -35,6 +35,12 @@ def run(chk, tier):
     run_sub(chk, 'c09', 'C09.', {'R4'})
     run_sub(chk, 'c20', 'C20.', {'O4'})
 
+    # ---- R7: configuration plumbing of the channel (timeouts, protocol, sizes reach the consumer unchanged) ----------
+    chk.rule('R7', 'ChannelConfig and Channel are name-preserving copies of the configuration', floor=2)
+    from .plumbing import check_copy
+    check_copy(chk, 'R7', prog, r'tracer::inner::TracerInner::make_channel_config$', 'trippy_core::config::ChannelConfig', 'self', exceptions={'source_addr': r'source_addr'})
+    check_copy(chk, 'R7', prog, r'net::channel::Channel::connect$', 'trippy_core::net::channel::Channel', 'config')
+
     # ---- R2 ---------------------------------------------------------------------------------------------
     chk.rule('R2', 'Response → StrategyResponse table (5 kinds)', floor=5)
     f2 = prog.find(r'<trippy_core::strategy::StrategyResponse as core::convert::From<\(trippy_core::probe::Response, &trippy_core::config::StrategyConfig\)>>::from$')
